@@ -202,6 +202,30 @@ func (in *Interp) InstallBuilderStubs() {
 		appendTo(args[0], out[0].(string))
 		return []Value{int64(0), nil}, nil
 	}
+	in.Stubs["fmt.Fprint"] = func(in *Interp, _ Value, args []Value) ([]Value, error) {
+		for _, a := range args[1:] {
+			s, ok := a.(string)
+			if !ok {
+				return nil, &Unsupported{What: "fmt.Fprint of a non-string"}
+			}
+			appendTo(args[0], s)
+		}
+		return []Value{int64(0), nil}, nil
+	}
+	in.Stubs["fmt.Fprintln"] = func(in *Interp, _ Value, args []Value) ([]Value, error) {
+		for i, a := range args[1:] {
+			s, ok := a.(string)
+			if !ok {
+				return nil, &Unsupported{What: "fmt.Fprintln of a non-string"}
+			}
+			if i > 0 {
+				appendTo(args[0], " ")
+			}
+			appendTo(args[0], s)
+		}
+		appendTo(args[0], "\n")
+		return []Value{int64(0), nil}, nil
+	}
 	in.Stubs["strings.Builder.WriteString"] = func(in *Interp, recv Value, args []Value) ([]Value, error) {
 		s, _ := args[0].(string)
 		appendTo(recv, s)
@@ -231,6 +255,19 @@ func (in *Interp) InstallStringStubs() {
 			out = append(out, p)
 		}
 		return []Value{&Slice{Elems: &out}}, nil
+	}
+	in.Stubs["strings.ReplaceAll"] = func(in *Interp, _ Value, a []Value) ([]Value, error) {
+		return []Value{strings.ReplaceAll(a[0].(string), a[1].(string), a[2].(string))}, nil
+	}
+	in.Stubs["strings.Replace"] = func(in *Interp, _ Value, a []Value) ([]Value, error) {
+		return []Value{strings.Replace(a[0].(string), a[1].(string), a[2].(string), int(a[3].(int64)))}, nil
+	}
+	in.Stubs["strconv.Atoi"] = func(in *Interp, _ Value, a []Value) ([]Value, error) {
+		n, err := strconv.Atoi(a[0].(string))
+		if err != nil {
+			return []Value{int64(0), ErrVal{Tag: "strconv.Atoi"}}, nil
+		}
+		return []Value{int64(n), nil}, nil
 	}
 	in.Stubs["strings.Contains"] = func(in *Interp, _ Value, a []Value) ([]Value, error) {
 		return []Value{strings.Contains(str(a[0]), str(a[1]))}, nil
